@@ -184,6 +184,13 @@ func (s *Storage) Fail(op string, occurrence int) {
 	s.Faults[op][occurrence] = true
 }
 
+// CountOf: how often the operation has been called since the log was last reset
+func (s *Storage) CountOf(op string) int {
+	s.mu.Lock()
+	defer s.mu.Unlock()
+	return s.counts[op]
+}
+
 func (s *Storage) ResetLog() {
 	s.mu.Lock()
 	defer s.mu.Unlock()
